@@ -723,26 +723,42 @@ func (s statusRec) UpdateStatus(st fbb.Status) {
 		"done": st.Done, "pcsize": csize})
 }
 
-// txEnd wraps a link end as a transport with a transmit buffer and Flush.
+// txEnd wraps a link end as a transport with a transmit buffer and Flush, like a modem: everything written (payload
+// and framing) is queued and leaves the queue at a fixed rate.
 type txEnd struct {
 	*End
-	mu      sync.Mutex
-	pending int
+	mu     sync.Mutex
+	queued int       // bytes ever written
+	start  time.Time // when the queue started draining
+	rate   float64   // bytes per second leaving the queue
 }
 
 func (t *txEnd) Write(p []byte) (int, error) {
 	n, err := t.End.Write(p)
 	t.mu.Lock()
-	t.pending = len(p) / 2
+	if t.start.IsZero() {
+		t.start = time.Now()
+	}
+	t.queued += len(p)
 	t.mu.Unlock()
 	return n, err
 }
-func (t *txEnd) TxBufferLen() int { t.mu.Lock(); defer t.mu.Unlock(); return t.pending }
-func (t *txEnd) Flush() error {
-	time.Sleep(5 * time.Millisecond)
+func (t *txEnd) TxBufferLen() int {
 	t.mu.Lock()
-	t.pending = 0
-	t.mu.Unlock()
+	defer t.mu.Unlock()
+	if t.start.IsZero() {
+		return 0
+	}
+	left := t.queued - int(t.rate*time.Since(t.start).Seconds())
+	if left < 0 {
+		left = 0
+	}
+	return left
+}
+func (t *txEnd) Flush() error {
+	for t.TxBufferLen() > 0 {
+		time.Sleep(5 * time.Millisecond)
+	}
 	return nil
 }
 
@@ -763,7 +779,7 @@ func MainC17(args []string) int {
 	for i := 0; i < *n; i++ {
 		sc := GenScenario(rng, i+1, 1+rng.Intn(2), rng.Intn(2), map[string]int{"+": 1}, false)
 		sc.Sched, sc.Seg = "free", []string{"all", "rand"}[rng.Intn(2)]
-		c := cfg{sc: sc, tx: i%2 == 0}
+		c := cfg{sc: sc, tx: (i/4)%2 == 0}
 		switch i % 4 {
 		case 0: // no delay, small messages
 		case 1: // one medium message, several ticks inside the transfer
